@@ -79,6 +79,7 @@ def explore(ctx, prop):
         'alias forms (rule: decls.can_share)': {it['id']: it['alias'] for it in items if it.get('alias')},
         'alias enumeration': 'shared object gets one geometry (unit/identity when a unit array is involved, else same stride or same index pattern); '
                              'quick: strides {unit,5}, indices {identity,scattered}, tags + 11 rotations x d_b in {0,5}; thorough: full stride/index alphabets, all d_b',
+        'placements': 'every memory operand starting at 0, 8, 16, 24 modulo 32 (unit / stride 5, identity / scattered lists, tag pass and one boundary pass); plain and ASan builds',
         'index-list shapes': 'every gap word over {consecutive, jump past the maximum, wrap below the minimum}^(lanes-1) (3^7 = 2187 lists for 8 lanes, 27 for 4) on every index-array parameter alone and on all together; tag pass; plain and ASan builds',
         'huge strides (plain build)': '{715827883, 2^31+5, 2^32+7} on every scalar-stride array carrier (each alone and all together, tag pass) on a PROT_NONE reservation with only the designated pages present; 32-bit stride parameters only get values that fit',
         're-entrancy (ThreadSanitizer build)': 'every overload from 3 threads at once on private heap blocks (tag pass, stride 5 / scattered indices, 8 repetitions): results vs sequential oracle, any data-race report = violation',
